@@ -16,6 +16,7 @@ from typing import Any, Dict, Optional, Tuple
 # PERFORMANCE: Use fast JSON implementation (orjson if available, stdlib json fallback)
 from chuk_mcp.protocol import fast_json as json
 
+import anyio
 import httpx
 from anyio.streams.memory import MemoryObjectReceiveStream, MemoryObjectSendStream
 
@@ -146,6 +147,12 @@ class SSETransport(Transport):
         except Exception as e:
             logger.error(f"Error in SSE transport __aenter__: {e}")
             await self._cleanup()
+            raise
+        except asyncio.CancelledError:
+            # Cancelled while connecting: __aexit__ will not run, so release the
+            # tasks and HTTP clients here (shielded from the ongoing cancellation)
+            with anyio.CancelScope(shield=True):
+                await self._cleanup()
             raise
 
     async def __aexit__(self, exc_type, exc_val, exc_tb):
